@@ -2,7 +2,7 @@
 From Coq Require Import ZArith NArith List Bool.
 Import ListNotations.
 From V Require Import Model.Val Model.Paths Model.PyPrims Model.Quote Model.LinkRe Model.Links
-  Proofs.PathsP Proofs.QuoteP Proofs.LinksP Proofs.Ties Gen.Fn_helpers.
+  Proofs.PathsP Proofs.QuoteP Proofs.LinksP Proofs.Ties Proofs.LinksGenP Gen.Fn_helpers.
 
 (* 1. The relative path written for a cross-fragment link, resolved against the directory of the
       source fragment, is the target fragment — any depth, any number of '..' climbs.
@@ -72,6 +72,18 @@ Print Assumptions create_link_form.
 Theorem translated_split_links_is_model : forall s, split_links s = split_links_model s.
 Proof. exact tie_split_links. Qed.
 Print Assumptions translated_split_links_is_model.
+
+(* 6. a space-separated list of links of ANY length (stronger than the bounded length of the property text), mixing
+      '#id', 'path#id' and 'type path#id', survives encode + split in order — stated for the function translated from
+      helpers.split_links on this run *)
+Theorem link_lists_survive_encode_split : forall ls, Forall wf_lnk ls -> Forall ws_free_lnk ls ->
+  split_links (join_with SPACE (map render ls)) = Ok (map render ls).
+Proof. exact translated_split_links_join. Qed.
+Print Assumptions link_lists_survive_encode_split.
+Example link_list_hypotheses_satisfiable :
+  Forall wf_lnk [LLocal [97]%N; LTyped [116;58;88]%N [102;46;99]%N [98]%N; LUntyped [103]%N [99]%N] /\
+  Forall ws_free_lnk [LLocal [97]%N; LTyped [116;58;88]%N [102;46;99]%N [98]%N; LUntyped [103]%N [99]%N].
+Proof. split; repeat constructor. Qed.
 
 (* non-vacuity *)
 Example wf_example :
